@@ -25,6 +25,102 @@ def _apply(st: dict, root) -> dict[str, str] | None:
     return overlay
 
 
+def apply_unified_diff(diff_text: str, root) -> dict[str, str] | None:
+    """Apply a unified diff (git format) in memory to the files under root.
+    Returns {relative path: new text} or None when a hunk does not match."""
+    import re
+    overlay: dict[str, str] = {}
+    cur = None
+    lines = diff_text.splitlines()
+    i = 0
+    hunks: dict[str, list] = {}
+    while i < len(lines):
+        ln = lines[i]
+        if ln.startswith("+++ "):
+            cur = ln[4:].strip()
+            cur = cur[2:] if cur.startswith("b/") else cur
+            hunks[cur] = []
+        elif ln.startswith("@@") and cur is not None:
+            m = re.match(r"@@ -(\d+)(?:,(\d+))? \+(\d+)(?:,(\d+))? @@", ln)
+            if not m:
+                return None
+            old_start = int(m.group(1))
+            body = []
+            i += 1
+            while i < len(lines) and not lines[i].startswith(("@@", "diff ",
+                                                               "--- ", "+++ ")):
+                if lines[i].startswith("\\"):
+                    i += 1
+                    continue
+                body.append(lines[i])
+                i += 1
+            hunks[cur].append((old_start, body))
+            continue
+        i += 1
+    for rel, hs in hunks.items():
+        if rel == "/dev/null" or not hs:
+            continue
+        p = root / rel
+        src = p.read_text(encoding="utf-8").splitlines() if p.exists() else []
+        out: list[str] = []
+        pos = 0
+        for old_start, body in hs:
+            start = max(old_start - 1, 0)
+            # allow small offsets
+            want = [b[1:] for b in body if b[:1] in (" ", "-")]
+            found = None
+            for off in range(0, 60):
+                for cand in (start + off, start - off):
+                    if cand >= pos and src[cand:cand + len(want)] == want:
+                        found = cand
+                        break
+                if found is not None:
+                    break
+            if found is None:
+                return None
+            out += src[pos:found]
+            for b in body:
+                if b[:1] == "+":
+                    out.append(b[1:])
+                elif b[:1] == " ":
+                    out.append(b[1:])
+                elif b == "":
+                    out.append("")
+            pos = found + len(want)
+        out += src[pos:]
+        overlay[rel] = "\n".join(out) + "\n"
+    return overlay
+
+
+def _seeded(args) -> dict:
+    pid, modname, name = args
+    import importlib
+    import json
+    from pathlib import Path
+    from sa.context import Context
+    from sa.report import VERIF
+    mod = importlib.import_module(modname)
+    root = repo_root()
+    res = {"rule": "seeded-corpus", "name": name, "expect": "fire"}
+    diff = (VERIF / "seeded" / name / "patch.diff").read_text()
+    overlay = apply_unified_diff(diff, root)
+    if overlay is None:
+        res["status"] = "not-applicable (patch does not apply to the current tree)"
+        return res
+    rep = Report(pid, "selftest")
+    try:
+        ctx = Context(tier="quick", overlay=overlay)
+        mod.run(ctx, rep)
+        known = {f["key"] for f in load_known().get("findings", [])}
+        vs = [v for v in rep.violations if v.key(pid) not in known]
+        res["reported"] = [f"{v.rule} {v.loc} {v.where}" for v in vs][:4]
+        res["status"] = "ok" if vs else "MISSED"
+    except AnalysisError as e:
+        res["reported"] = [f"ANALYSIS-ERROR {e}"]
+        res["status"] = "ERROR"
+    return res
+
+
 def _one(args) -> dict:
     pid, modname, idx = args
     import importlib
@@ -63,16 +159,25 @@ def _one(args) -> dict:
 
 
 def run_selftests(pid: str, mod, rep: Report) -> None:
+    import json
+    from sa.report import VERIF
     tests = getattr(mod, "SELFTESTS", [])
-    if not tests:
-        return
     jobs = [(pid, mod.__name__, i) for i in range(len(tests))]
-    workers = min(len(jobs), int(os.environ.get("VERIF_JOBS", "16")))
-    if workers > 1:
-        with ProcessPoolExecutor(max_workers=workers) as ex:
-            results = list(ex.map(_one, jobs))
-    else:
-        results = [_one(j) for j in jobs]
+    # independent seeded changes (made by sub-agents without access to
+    # /verif) that this property's check is recorded to catch
+    corpus = []
+    rp = VERIF / "seeded" / "RESULTS.json"
+    if rp.exists():
+        for name, r in sorted(json.loads(rp.read_text()).items()):
+            if pid in r.get("fired", {}) and (
+                    VERIF / "seeded" / name / "patch.diff").exists():
+                corpus.append((pid, mod.__name__, name))
+    if not jobs and not corpus:
+        return
+    workers = max(1, min(len(jobs) + len(corpus),
+                         int(os.environ.get("VERIF_JOBS", "16"))))
+    with ProcessPoolExecutor(max_workers=workers) as ex:
+        results = list(ex.map(_one, jobs)) + list(ex.map(_seeded, corpus))
     rep.selftest = results
     bad = [r for r in results if r["status"] in ("MISSED", "FALSE-ALARM",
                                                   "ERROR")]
